@@ -28,6 +28,13 @@ THEOREMS = [
     'IblVerif.C14.channel_perm',
     'IblVerif.C14.channel_perm_tie_counterexample',
     'IblVerif.C14.batch_independent',
+    'IblVerif.C14.recovery_offset_nearest',
+    'IblVerif.C14.call_is_batch_then_derived_columns',
+    'IblVerif.C14.call_scale_equivariant',
+    'IblVerif.C14.call_batch_independent',
+    'IblVerif.C14.call_channel_perm',
+    'IblVerif.C14.durations_sign',
+    'IblVerif.C14.slopes_finite_iff',
 ]
 RULE = ('(a) seeded structured batches arr[N, T, C] of integer- or dyadic-valued waveforms held as float32 / float64 / int16 / int32 / int64 '
         '(dtype, memory layout C / F / transposed view / strided view, positional vs keyword spelling, return_peak_channel, and the scalar '
@@ -43,14 +50,28 @@ RULE = ('(a) seeded structured batches arr[N, T, C] of integer- or dyadic-valued
         'columns are scaled afterwards: theorem scale_equivariant); '
         '(b) the exhaustive box of ALL single-channel waveforms over {-1, 0, 1} of length 10 (thorough: also 11) whose largest deflection is '
         'not on sample 0, plus those where it is (quick: a sample; thorough: all of length 10), with k in {0, 1, 5, T-1}; '
-        'each batch runs once through the real compute_spike_features and once through the Lean model `batch`; a case is one batch; '
-        'non-trivial = succeeds with >= 1 waveform whose peak is not the last sample; distinct by generated content')
+        'each batch runs once through the real compute_spike_features and once through the Lean call model `Features.call` (the stage list of '
+        'compute_spike_features interpreted stage by stage; it gets recovery_duration_ms as the exact rational of the scalar handed over and fs, '
+        'and computes the recovery offset itself); a case is one batch; sampling rates incl. powers of two (1024, 32768: the duration columns '
+        'are then compared exactly); '
+        '(c) recovery offsets: (fs, recovery_duration_ms) with recovery_duration_ms * fs / 1000 = j + f, j in 0..170, f in {0, +-0.1, +-0.3, '
+        '+-0.45, +-0.49, random} (never within 1e-6 of an exact tie), some through float32; the offset the real call uses is read off the frame '
+        '(recovery_time_idx - trough_time_idx on a 200-sample waveform) and compared with the model\'s recoveryOffset; '
+        'non-trivial = succeeds with >= 1 waveform whose peak is not the last sample (offsets: >= 0.3 sample from an integer); distinct by generated content')
 ASSUMPTIONS = [
     'waveform samples are integers < 2^22 times a power of two (2^-40 .. 2^60) held in float32/float64: abs, max, negation, halving, '
     'subtraction of the half maximum and all comparisons are then exact in NumPy, and float32 rounding of peak/trough cannot move '
     'the quotient across 1.5 (|2p-3t|/(2t) >= 1/(2t) > 2^-24 * 1.5); the model computes in exact rationals',
-    'derived float columns (durations, ratio, log ratio, slopes) are compared with the exact rational of the model to rel. 2e-6 '
-    '(float32 inputs) / 1e-12 (float64), inf/NaN by kind',
+    'derived float columns (durations, ratio, slopes) are compared with the exact rational of the model (Feat.ratio, durOf, slopeOf: float '
+    'division with its inf / NaN outcomes) to rel. 2e-6 (float32 inputs) / 1e-12 (float64), inf/NaN by kind; the durations exactly when fs is a '
+    'power of two (every float operation is then exact); peak_to_trough_ratio_log against math.log of the model ratio to 1e-5 (np.log is not modelled)',
+    'recovery offset: the model computes int(round(recovery_duration_ms * fs / 1000)) on the exact rational value of the arguments, round half to '
+    'even (Features.recoveryOffset; theorem recovery_offset_nearest); the float evaluation of the code agrees unless the quotient is within ~1e-12 of '
+    'x.5: generated durations keep >= 0.1 sample (batches) / 1e-6 sample (offset class) away from an exact tie, and exact ties are never '
+    'generated (which neighbour a tie goes to is not demanded by the property; the translator tie checks the formula text); fs is integer-valued; '
+    'recovery_duration_ms * fs < 0 is outside the call model (CallErr.negOffset) and never generated',
+    'the search oracle judges the derived columns by their documented definitions evaluated on the row\'s own index / value columns (rel. 2e-6), '
+    'with lower priority than any index / value law',
     'NaN samples are zeroed in place by _validate_arr_in before anything else (modelled: none -> 0; the zeroing of the caller\'s array is '
     'checked too); +-inf samples are outside the property',
     'batches containing a waveform whose largest deflection is on sample 0, and offsets k >= T, raise for the whole batch: modelled and '
@@ -70,17 +91,30 @@ TRUSTED = [
     'np.argmax / np.nanargmax return the first maximal index; np.nanargmax raises ValueError on an all-NaN row (NumPy documentation)',
     'pandas df.loc[index] = frame aligns the assigned frame on index labels and column names',
     'exactness of IEEE float32/float64 arithmetic on the dyadic inputs used (see assumptions)',
+    'translator tie: harness/pyfn2lean.py (reads float expressions as exact rationals, drops array statements; a pandas column expression is '
+    'read pointwise: df["c"] -> one Int parameter) and its event regular expressions in harness/tiespecs/c14.py',
 ]
 LEVEL_TEXT = ('Lean 4 theorems for every batch of rational-valued multi-channel waveforms (all N, T, C >= 1, all offsets): success domain '
               'and the two error branches, peak = first global absolute extremum or the swapped trough, tip < peak <= trough, trough/tip '
               'extremality, nearest half-peak samples and their fall-backs, recovery index with fall-back, value columns = samples, scale '
               'equivariance (incl. derived columns), channel permutation under a unique maximal channel, batch independence (the vectorised '
-              'pipeline incl. the df_index sub-selection and write-back equals the per-waveform pipeline); model tied to '
-              'compute_spike_features by an exact differential run incl. an exhaustive ternary box')
-LEVEL_NOTE = ('trusted: Lean kernel + Mathlib order lemmas on Rat, the Python correspondence harness, exactness of float32/float64 arithmetic '
-              'on the dyadic inputs used; derived slope/duration/ratio columns of the real code are only compared numerically (partial)')
+              'pipeline incl. the df_index sub-selection and write-back equals the per-waveform pipeline); the whole call as the interpretation '
+              'of its stage list with the model\'s own recovery offset (nearest integer, ties to even) = batch pipeline + derived columns, and for '
+              'the complete 20-column table: scale law, batch independence, channel permutation, sign of the durations, finiteness of the slopes; '
+              'model tied to compute_spike_features by an exact differential run incl. an exhaustive ternary box, and by a translator tie '
+              '(stage order + offset formula, find_tip_trough branch, recovery fallback index, duration / slope column arithmetic regenerated '
+              'from the source on every run and proved equal to the model)')
+LEVEL_NOTE = ('trusted: Lean kernel + Mathlib order lemmas on Rat, the Python correspondence harness, the source translator of the tie, exactness of '
+              'float32/float64 arithmetic on the dyadic inputs used. Proved about the model AND re-proved against the regenerated source text: stage '
+              'order of compute_spike_features, recovery offset formula, swap-block decision len(df_index) > 0, fallback index T-1, duration / slope '
+              'column expressions. Tied by the correspondence run only (array code outside the translator subset): argmax / NaN-mask / np.where '
+              'statements, the 1.5 ratio test, the two raise guards. Partial / numeric only: the float ROUNDING of the derived columns (the model '
+              'is exact-rational with IEEE inf / NaN outcomes; compared to rel. 2e-6 / 1e-12, exactly for the durations at power-of-two fs), '
+              'peak_to_trough_ratio_log (np.log, compared to 1e-5), the float evaluation of the offset within 1e-12 of an exact tie')
 TECHNIQUE = ('Lean 4 proofs by induction over first-occurrence argmax / masked argmax and list plumbing (simp/omega/linarith) over exact rationals; '
-             'exact correspondence run of index and value columns; derived float columns numeric (partial)')
+             'call model = fold of the stage list of compute_spike_features; translator tie (pyfn2lean -> Generated/SrcC14.lean, Tie/C14.lean: 9 theorems '
+             'translated source = model, rebuilt on every run); exact correspondence run of index and value columns, observed recovery offsets; '
+             'derived float columns: exact-rational model, float rounding numeric (partial)')
 
 IDX_COLS = ['peak_trace_idx', 'peak_time_idx', 'peak_val', 'invert_sign_peak', 'trough_time_idx', 'trough_val',
             'tip_time_idx', 'tip_val', 'half_peak_post_time_idx', 'half_peak_pre_time_idx', 'half_peak_post_val',
@@ -158,7 +192,7 @@ def _peak_traces_ok(arr3, df):
 
 
 MODEL_ERR = {'err allNaN': 'err ValueError', 'err offsetOOB': 'err ValueError', 'err zeroSize': 'err ValueError',
-             'err index': 'err IndexError'}
+             'err index': 'err IndexError'}      # 'err order' / 'err negOffset' (outside the call model) map to nothing: a mismatch
 
 
 def _frac(x):
@@ -184,6 +218,23 @@ def _encode(arr3):
 
 def _k_of(fs, rd):
     return int(round(rd * fs / 1000))
+
+
+DEFAULT_FS, DEFAULT_RD = 30000, 0.16          # asserted against the signature of compute_spike_features in `correspondence`
+
+
+def _rd_token(kw, form=None):
+    """recovery_duration_ms as the call receives it (typed scalar -> its exact value), as `num/den` for the model, which
+    computes the offset int(round(recovery_duration_ms * fs / 1000)) itself (Features.recoveryOffset)"""
+    rd = kw.get('recovery_duration_ms', DEFAULT_RD)
+    if form is not None and 'recovery_duration_ms' in kw:
+        rd = _SCALAR[form.get('rd_type', 'float')](rd)
+    f = Fraction(float(rd))
+    return str(f.numerator) if f.denominator == 1 else f'{f.numerator}/{f.denominator}'
+
+
+def _call_line(kw, form, T, fs, marr):
+    return f"call {_rd_token(kw, form)} {int(fs)} {T} {_encode(marr)}"
 
 
 # ---------------------------------------------------------------------------------------------
@@ -317,7 +368,7 @@ def gen_batch(rng, quick=True):
         fs, rd, k, kw = 30000, 0.16, 5, {}
         form['spelling'] = _pick(rng, ['keywords', 'keywords+return_peak_channel'], [4, 1])
     else:
-        fs = int(_pick(rng, [30000, 1000, 2500, 20000]))
+        fs = int(_pick(rng, [30000, 1000, 2500, 20000, 32768, 1024], [4, 4, 4, 4, 2, 1]))
         k = {'small': int(rng.integers(0, 9)), 'edge': int(_pick(rng, [T - 2, T - 1, T, T + 1])), 'any': int(rng.integers(0, T))}[kkind]
         if rng.random() < 0.25:               # offset given as an integer number of milliseconds
             fs, rd = 1000, k
@@ -480,7 +531,12 @@ def _compare_batch(ctx, st, op, desc, arr, call, kw, k, T, dtype, ans, tags, msc
                         if abs(v[p] - v[q]) > lim:
                             skip.add(c)
                             st.c['F22: slope numerator beyond the integer dtype (column not compared)'] += 1
-                bad = [c for c in DER_COLS if c not in skip and not _close(ide[c], mde[c], rel)]
+                fs_v = float(kw.get('fs', DEFAULT_FS))
+                pow2 = fs_v > 0 and math.log2(fs_v) == int(math.log2(fs_v))     # durations (index difference / fs) are then exact floats
+                if pow2:
+                    st.c['fs a power of two: durations compared exactly'] += 1
+                bad = [c for c in DER_COLS if c not in skip
+                       and not _close(ide[c], mde[c], 0.0 if (pow2 and c.endswith('duration')) else rel)]
                 rt = mde['peak_to_trough_ratio']
                 if rt not in ('nan', 'inf', '-inf') and Fraction(rt) > 0:
                     if not abs(ide['peak_to_trough_ratio_log'] - math.log(Fraction(rt))) <= 1e-5:
@@ -568,12 +624,60 @@ def scale_cases(ctx):
             ctx.scale_failures = getattr(ctx, 'scale_failures', []) + [(j, r)]
 
 
+def _observe_offset(fs, rd):
+    """the offset the real call uses, read off the returned frame: recovery_time_idx - trough_time_idx on a 200-sample
+    waveform whose trough is sample 23 (valid while 23 + offset < 200)"""
+    from ibldsp import waveforms
+    x = np.zeros((1, 200, 1), np.float64)
+    x[0, 20, 0], x[0, 23, 0] = -100.0, 30.0
+    with warnings.catch_warnings(), np.errstate(all='ignore'):
+        warnings.simplefilter('ignore')
+        try:
+            df = waveforms.compute_spike_features(x, fs=fs, recovery_duration_ms=rd)
+        except Exception as e:  # noqa
+            return f'err {type(e).__name__}'
+    trg, rec = int(df['trough_time_idx'].iloc[0]), int(df['recovery_time_idx'].iloc[0])
+    return f'k {rec - trg}' if trg == 23 else f'trough at {trg}'
+
+
+def offset_cases(ctx):
+    """(c) the recovery offset int(round(recovery_duration_ms * fs / 1000)): observed on the real call vs the model's
+    `recoveryOffset`, for durations up to 0.49 sample either side of an integer number of samples.  Exact ties
+    (x.5 samples) are NOT generated: which neighbour a tie goes to is not part of the property (the model follows the code:
+    ties to even, theorem recovery_offset_nearest; the translator tie checks the formula itself)."""
+    rng = ctx.subrng(5, 0)
+    n, cases = ctx.n(150, 1200), []
+    while len(cases) < n:
+        fs = _pick(rng, [30000, 1000, 2500, 20000, 25000, 32000, 30000.0, np.float64(2500), np.int32(30000)], [4, 2, 1, 1, 1, 1, 1, 1, 1])
+        j = int(_pick(rng, [int(rng.integers(0, 171)), int(rng.integers(0, 12)), 0, 1, 5], [3, 4, 1, 1, 1]))
+        frac = float(_pick(rng, [0.49, -0.49, 0.45, -0.45, 0.3, -0.3, 0.1, -0.1, 0.0, float(rng.uniform(-0.49, 0.49))], [2, 2, 1, 1, 1, 1, 1, 1, 2, 4]))
+        rd = (j + frac) * 1000 / float(fs)
+        if rng.random() < 0.15:
+            rd = float(np.float32(rd))                    # a duration that came through float32
+        if rd < 0:
+            continue
+        v = rd * fs / 1000                                # as the code evaluates it
+        if abs((v % 1) - 0.5) < 1e-6 or v > 171:          # not within 1e-6 of a tie (float and exact evaluation then agree)
+            continue
+        cases.append((fs, rd, j, frac))
+    answers = ctx.lean([f'offset {_rd_token({"recovery_duration_ms": rd})} {int(fs)}' for fs, rd, _, _ in cases])
+    for (fs, rd, j, frac), ans in zip(cases, answers):
+        obs = _observe_offset(fs, rd)
+        ctx.compare('offset', {'op': 'offset', 'fs': float(fs), 'fs_type': type(fs).__name__, 'recovery_duration_ms': rd}, obs, ans,
+                    nontrivial=abs(frac) >= 0.3, tags=('recovery offset', 'offset within 0.05 of a tie' if abs(frac) >= 0.45 else
+                                                       'offset 0.3 from an integer' if abs(frac) >= 0.3 else 'offset near an integer',
+                                                       'offset 0' if ans == 'k 0' else 'offset > 0'))
+    ctx.note(f'{len(cases)} recovery offsets observed on the real call (recovery_time_idx - trough_time_idx) = model recoveryOffset; '
+             'exact ties excluded (see offset_cases)')
+
+
 def correspondence(ctx):
     st = _Stats()
     # (a) structured random batches --------------------------------------------------------------
     ncase = ctx.n(700, 6000)
     cases = [gen_batch(ctx.subrng(1, i), ctx.quick) for i in range(ncase)]
-    lines = [f"batch {g['k']} {g['T']} {g['fs']} {_encode(g['marr'])}" for g in cases]
+    # the model gets recovery_duration_ms and fs as the call does and computes the offset itself (op `call`)
+    lines = [_call_line(g['kw'], g['form'], g['T'], g['fs'], g['marr']) for g in cases]
     model = []
     for a in range(0, len(lines), 400):
         model += ctx.lean(lines[a:a + 400])
@@ -615,7 +719,7 @@ def correspondence(ctx):
                 arr = W[a:a + B][:, :, None]
                 k = (0, 1, 5, T - 1)[bi % 4]
                 fs = 1000
-                blines.append(f'batch {k} {T} {fs} {_encode(arr)}')
+                blines.append(f'call {k} {fs} {T} {_encode(arr)}')
                 barrs.append((arr, k, a))
             answers = []
             for a in range(0, len(blines), 2000):
@@ -639,8 +743,11 @@ def correspondence(ctx):
     import inspect
     from ibldsp import waveforms
     sig = inspect.signature(waveforms.compute_spike_features)
-    kdef = _k_of(sig.parameters['fs'].default, sig.parameters['recovery_duration_ms'].default)
-    ctx.compare('defaults', {'op': 'defaults'}, f'k={kdef}', 'k=5', nontrivial=False, tags=('defaults',))
+    d_fs, d_rd = sig.parameters['fs'].default, sig.parameters['recovery_duration_ms'].default
+    kdef = _k_of(d_fs, d_rd)
+    mk = ctx.lean([f'offset {_rd_token({"recovery_duration_ms": DEFAULT_RD})} {DEFAULT_FS}'])[0]      # the model's own offset for the defaults
+    ctx.compare('defaults', {'op': 'defaults'}, f'fs={float(d_fs)} recovery_duration_ms={float(d_rd)} k={kdef}',
+                f'fs={float(DEFAULT_FS)} recovery_duration_ms={float(DEFAULT_RD)} ' + mk.replace('k ', 'k='), nontrivial=False, tags=('defaults',))
     for dlt, exp in ((0, True), (1, True), (-1, False)):      # trough = -(2A/3 + dlt): ratio <= 1.5 iff dlt >= 0
         A = 300
         x = np.zeros((12, 1), np.float32)
@@ -660,6 +767,7 @@ def correspondence(ctx):
 # oracle: the property, stated directly on the real code
 # ---------------------------------------------------------------------------------------------
     scale_cases(ctx)
+    offset_cases(ctx)
 
 
 def _row_laws(x, r, k, T):
@@ -725,6 +833,35 @@ def _row_laws(x, r, k, T):
     return None
 
 
+def _derived_laws(r, fs, int_lim=None):
+    """The derived columns of one row against their documented definitions (docstrings of peak_to_trough_duration,
+    half_peak_duration, peak_to_trough_ratio, polarisation_slopes, recovery_slope), evaluated in float64 from the row's own
+    index / value columns; relative tolerance 2e-6, inf / NaN by kind.  `int_lim`: integer-typed data - slope numerators
+    beyond the dtype are finding F22 (not judged)."""
+    g = lambda c: float(r[c])        # noqa
+
+    def div(a, b):
+        if b == 0:
+            return math.nan if a == 0 else math.copysign(math.inf, a)
+        return a / b
+    exp = {'peak_to_trough_duration': (g('trough_time_idx') - g('peak_time_idx')) / fs,
+           'half_peak_duration': (g('half_peak_post_time_idx') - g('half_peak_pre_time_idx')) / fs,
+           'peak_to_trough_ratio': abs(div(g('peak_val'), g('trough_val')))}
+    for c, (v1, v0, t1, t0) in {'depolarisation_slope': ('peak_val', 'tip_val', 'peak_time_idx', 'tip_time_idx'),
+                                'repolarisation_slope': ('trough_val', 'peak_val', 'trough_time_idx', 'peak_time_idx'),
+                                'recovery_slope': ('recovery_val', 'trough_val', 'recovery_time_idx', 'trough_time_idx')}.items():
+        if int_lim is not None and abs(g(v1) - g(v0)) > int_lim:
+            continue
+        exp[c] = div(g(v1) - g(v0), (g(t1) - g(t0)) / fs)
+    for c, e in exp.items():
+        a = g(c)
+        ok = (math.isnan(a) and math.isnan(e)) or (math.isinf(e) and a == e) or \
+             (math.isfinite(a) and math.isfinite(e) and abs(a - e) <= 2e-6 * max(abs(a), abs(e)) + 1e-300)
+        if not ok:
+            return f'derived column {c} is {a!r}; its definition on the row\'s own index / value columns gives {e!r}'
+    return None
+
+
 def _same(r1, r2, cols, fac=1.0):
     for c in cols:
         a, b = float(r1[c]), float(r2[c])
@@ -765,7 +902,11 @@ def _scale_laws(arr, kw, df=None, form=None):
             continue                          # integer counts: integer factors that do not overflow the dtype
         if not is_int and not (amax * cfac < 2.0 ** lim and amin * cfac > 2.0 ** -lim):
             continue
-        d2, e2 = _features(arr * arr.dtype.type(cfac), _form=form, **kw)
+        scaled = arr * arr.dtype.type(cfac)
+        with np.errstate(all='ignore'):
+            if not np.array_equal(scaled.astype(np.float64), arr.astype(np.float64) * cfac, equal_nan=True):
+                continue                      # the scaling itself is not exact in this dtype (wide mantissas x 3): law not testable
+        d2, e2 = _features(scaled, _form=form, **kw)
         if d2 is None:
             return cfac, f'scaling the batch by c = {_fmt_c(cfac)} makes the extraction raise ({e2})'
         pow2 = math.log2(cfac) == int(math.log2(cfac))
@@ -812,6 +953,13 @@ def oracle(arr, kw, k, rng=None, form=None):
         msg = _row_laws(xs[n], df.iloc[n], k, T)
         if msg:
             return f'waveform {n}: {msg}'
+    weak_msg = None
+    fs_ = float(kw.get('fs', DEFAULT_FS))
+    for n in range(N):
+        msg = _derived_laws(df.iloc[n], fs_, np.iinfo(arr.dtype).max if arr.dtype.kind == 'i' else None)
+        if msg:
+            weak_msg = f'waveform {n}: {msg}'      # reported only when no index / value law is broken (below)
+            break
     # the same values in the plain form (float64 for integer counts, C order, keywords, Python scalars) give the same features
     if form not in (None, PLAIN_FORM) or arr.dtype.kind == 'i':
         ref_arr = arr.astype(np.float64) if arr.dtype.kind == 'i' else arr
@@ -850,7 +998,7 @@ def oracle(arr, kw, k, rng=None, form=None):
                     return f'waveform {n}: permuting the channels by {perm.tolist()} changes {bad}'
                 if int(perm[int(dp.iloc[n]['peak_trace_idx'])]) != int(df.iloc[n]['peak_trace_idx']):
                     return f'waveform {n}: after permuting the channels by {perm.tolist()} the peak channel is not the same physical channel'
-    return None
+    return weak_msg
 
 
 def _fails(arr, kw, k, form=None):
@@ -864,7 +1012,20 @@ def _sev(msg):
     """2 = an index / value column or a raise; 1 = only a derived column (ratio, duration, slope) under scaling"""
     if not msg:
         return 0
-    return 1 if any(f'changes {c} ' in msg for c in DER_COLS + ['peak_to_trough_ratio_log']) else 2
+    return 1 if ('derived column ' in msg or any(f'changes {c} ' in msg for c in DER_COLS + ['peak_to_trough_ratio_log'])) else 2
+
+
+def _dyadic_unit(arr):
+    """largest power of two u such that every finite sample of `arr` is an integer multiple of u (1.0 for integer dtypes / all-zero)"""
+    if arr.dtype.kind != 'f':
+        return 1.0
+    v = np.abs(arr[np.isfinite(arr) & (arr != 0)].astype(np.float64))
+    if v.size == 0:
+        return 1.0
+    m, e = np.frexp(v)                                   # v = m * 2^e, m in [0.5, 1)
+    mi = (m * 2.0 ** 53).astype(np.int64)                # integer mantissa
+    tz = np.array([(int(x) & -int(x)).bit_length() - 1 for x in mi])      # trailing zero bits
+    return float(2.0 ** int((e.astype(np.int64) - 53 + tz).min()))
 
 
 def _shrink(arr, kw, k, form=None):
@@ -888,8 +1049,10 @@ def _shrink(arr, kw, k, form=None):
             if _sev(m2) >= sev:
                 arr, msg, improved = cand, m2, True
                 break
+    unit = _dyadic_unit(arr)                  # samples are integers x unit (a power of two): shrink the integers, keep the unit
     for div in (1000, 100, 10, 4, 2):        # smaller magnitudes
-        cand = (np.where(np.isnan(arr), np.nan, np.trunc(arr / div)) + 0.0).astype(arr.dtype)
+        with np.errstate(all='ignore'):
+            cand = (np.where(np.isnan(arr), np.nan, np.trunc(arr / unit / div) * unit) + 0.0).astype(arr.dtype)
         m2 = _fails(cand, kw, k, form)
         if _sev(m2) >= sev:
             arr, msg = cand, m2
